@@ -46,6 +46,10 @@ type Style struct {
 	Pick func(label string, n int) int
 }
 
+// Joins counts lines shared by two properties (JoinLines); JoinsArrayThenContainer those where a
+// one-line array is followed by a container opened on the same line.
+var Joins, JoinsArrayThenContainer int64
+
 func DefaultStyle() *Style { return &Style{NL: "\n", Indent: "  "} }
 
 type printer struct {
@@ -328,6 +332,10 @@ func (p *printer) node(n *ref.SNode, level int, comma bool) {
 				// several properties on one line: allowed as long as at most one value of the line
 				// could take an annotation
 				p.w(" ")
+				Joins++
+				if pv := n.Props[i-1].Val; pv.Kind == ref.SArr && len(pv.Items) > 0 && (pr.Val.Kind == ref.SObj || pr.Val.Kind == ref.SArr) && !p.oneLine(pr.Val) {
+					JoinsArrayThenContainer++
+				}
 			} else {
 				p.w(p.st.NL)
 				p.leadingComments(level + 1)
@@ -556,6 +564,9 @@ var KeyPoolC01 = []string{"a", "b", "c", "id", "", "a\"b", "é", "@x", "k\\", "x
 type ShapeOpts struct {
 	Depth int
 	Width int
+	// Sparse: three out of four nodes carry no rule and no note (layouts that put several values
+	// on one line need values without annotations)
+	Sparse bool
 }
 
 // ShapeSchema draws a model of the rule-free fragment. isProp: the node is an object property
@@ -628,6 +639,9 @@ func shapeNode(t *rapid.T, o ShapeOpts, depth int, isProp, isRoot bool, label st
 	// rules
 	if isAny {
 		n.Rules = append(n.Rules, StrRule("type", "any"))
+	}
+	if o.Sparse && !isAny && rapid.IntRange(0, 3).Draw(t, label+"Plain") > 0 {
+		return n
 	}
 	if isProp {
 		switch rapid.IntRange(0, 5).Draw(t, label+"Opt") {
